@@ -387,8 +387,17 @@ class Context:
         array_prototype._prototype = self._object_prototype
 
         def array_constructor(*args):
-            if len(args) == 1 and isinstance(args[0], (int, float)):
-                arr = JSArray(int(args[0]))
+            if (
+                len(args) == 1
+                and isinstance(args[0], (int, float))
+                and not isinstance(args[0], bool)
+            ):
+                length = args[0]
+                if not (0 <= length < 2**32 and length == int(length)):
+                    from .errors import JSRangeError
+
+                    raise JSRangeError("Invalid array length")
+                arr = JSArray(int(length))
             else:
                 arr = JSArray()
                 for arg in args:
